@@ -3267,6 +3267,7 @@ func lemmaForwardSession(raw *rawEnvelope) (e *Session, e3 *Session, accepted bo
 //@   loop 0 invariant ctx != nil && listener != nil && c != nil
 //@ census [C17] callers acceptTransports : (*Server).ListenAndServe  ## the only producer of the transport queue (ListenAndServe passes srv.transportChan; that call is not under contract)
 //@ census [C17] senders Server.transportChan : none
+//@ census [C07,C17] writers channel.sessionID : NewServerChannel, (*ClientChannel).receiveSessionFromServer  ## the id a server channel was created with (fresh, announced to the client) is never replaced: no server-side or shared code assigns it
 
 //@ func (*Server).consumeTransports :: (srv, ctx) ()
 //@   props C14 C17
